@@ -236,5 +236,8 @@ def run(ctx):
     ctx.pmap(shard_country, [(cc, ctx.seed, ctx.tier, alphabet) for cc in o.countries()])
     ctx.pmap(shard_prefix, [(c, ctx.seed) for c in prefix_chars()])
     ctx.hyp_explore(text_strategy(), hyp_body, ctx.pick(4000, 150000), name="C01-text")
+    if not ctx.quick:
+        from ..engines import fuzz
+        fuzz.run_campaign(ctx.rec, "iban-c01", 120000, ctx.seed, ctx.prop)   # secondary engine: coverage-guided, oracle inside
     ctx.require_classes("valid", "replace-nonascii", "replace-ascii", "replace-accepted", "pair", "length-trunc",
                         "length-extend", "prefix-accepted", "prefix-rejected", "hyp-near", "hyp-text")
